@@ -152,46 +152,38 @@ def _kaiser_unweighted_ok(fi, wing):
 
 def d3b(chk, prog):
     """the half-window never exceeds the signal: wing <= len(x) - 1 for every width (mirror padding needs wing <= n - 1 values on each side)"""
-    from ..abstools import Interp, Term, W, T, provably_le, INF, Undecided
+    from ..abstools import Interp, W, T, Undecided
     from ..absval import Raised
-    fi = prog.fn("cnvlib.smoothing.check_inputs")          # (the half-window as check_inputs hands it to every smoother, however it is computed inside)
-
-    class Sig:
-        def __init__(self, n):
-            self.n = n
-
-        def abs_len(self):
-            return self.n
+    from ..estyping import Arr, const_model
+    fi = prog.fn("cnvlib.smoothing.check_inputs")          # (the half-window as check_inputs hands it to every smoother, however it is computed and padded inside)
     bad, n_ok = [], 0
     for width, label in ((Fr(1, 10), "fraction 0.1"), (Fr(9, 10), "fraction 0.9"), (2, "window 2"), (7, "window 7"), (101, "window 101")):
-        W.reset()
-        n = Term.sym("n", 2, INF, True)
-        from ..abstools import Model
-        model = Model()
-        model.ext["np.asarray"] = lambda it_, x, *a, **k: x
-        seen = []
-        model.prims["cnvlib.smoothing._pad_array"] = lambda it_, x, wing, seen=seen: (seen.append(wing), ("PADDED", wing))[1]
-        it = Interp(prog, model)
-        from ..absint import CTX
-        old = CTX.atoms
-        CTX.atoms = lambda d, op: True            # `assert wing >= 1`
-        try:
-            res = it.run(fi.qn, [Sig(n), width], dict(as_series=False))
-        except (Undecided, Raised) as e:
-            raise AnalysisError(f"C19-D3b: cannot evaluate check_inputs(<n values>, {label}): {e}")
-        finally:
-            CTX.atoms = old
-        if not (isinstance(res, tuple) and len(res) == 3 and seen and res[1] is seen[0] or (isinstance(res, tuple) and len(res) == 3 and seen and same_(res[1], seen[0]))):
-            raise AnalysisError(f"C19-D3b: check_inputs({label}) does not return (x, wing, padded signal) with the wing it padded by: {res!r}")
-        out = res[1]
-        lim = t_sub_(n)
-        if provably_le(out, lim):
-            n_ok += 1
-        else:
-            bad.append(f"{label}: wing = {out!r}")
-    chk.decide(not bad, "pad-unpad", f"check_inputs: the half-window it pads by is <= len(x) - 1 for every width ({n_ok} width kinds)", f"{fi.qn}::wing bound", fi.loc(),
-               "the half-window is not bounded by len(x) - 1: " + "; ".join(bad) + " -- for a signal shorter than the minimum wing the mirrored padding is longer than the signal and the "
-               "smoothers return fewer / more values than they were given (rolling_median of 2 values returns 0 values)", cells=5)
+        for n in (2, 3, 4, 5, 7, 10, 25, 60):
+            W.reset()
+            m = const_model()
+            m.ext["np.asarray"] = lambda it_, x, *a, **k: x if isinstance(x, Arr) else Arr(list(x))
+            m.ext["np.concatenate"] = lambda it_, parts, *a, **k: Arr([e for p_ in it_.iterate(parts) for e in (p_.v if isinstance(p_, Arr) else list(p_))])
+            it = Interp(prog, m)
+            sig = Arr([Fr(i % 3) for i in range(n)])
+            try:
+                res = it.run(fi.qn, [sig, width], dict(as_series=False))
+            except Undecided as e:
+                raise AnalysisError(f"C19-D3b: cannot evaluate check_inputs(<{n} values>, {label}): {e}")
+            except Raised as e:
+                bad.append(f"{label}, {n} values: raises {e}")
+                continue
+            if not (isinstance(res, tuple) and len(res) == 3):
+                raise AnalysisError(f"C19-D3b: check_inputs({label}) does not return (x, wing, padded signal): {res!r}")
+            wing, padded = res[1], res[2]
+            w_ = int(T(wing).cval()) if T(wing).is_const() else None
+            plen = len(padded.v) if isinstance(padded, Arr) else None
+            if w_ is None or w_ < 1 or w_ > n - 1 or plen != n + 2 * w_:
+                bad.append(f"{label}, {n} values: wing = {wing!r}, padded length {plen}")
+            else:
+                n_ok += 1
+    chk.decide(not bad, "pad-unpad", f"check_inputs: the half-window it pads by is between 1 and len(x) - 1, the padded signal 2 * wing longer, for every width kind x 8 signal lengths ({n_ok} cases)", f"{fi.qn}::wing bound", fi.loc(),
+               "the half-window is not bounded by len(x) - 1: " + "; ".join(bad[:4]) + " -- for a signal shorter than the minimum wing the mirrored padding is longer than the signal and the "
+               "smoothers return fewer / more values than they were given (rolling_median of 2 values returns 0 values)", cells=40)
 
 
 def same_(a, b):
@@ -341,20 +333,22 @@ def d3e(chk, prog):
                 return None
             out.append(t.cval())
         return out
-    fp = prog.fn("cnvlib.smoothing._pad_array")
-    tbp = Table(chk, "pad-unpad", "_pad_array on literal arrays: `wing` mirrored values before and after the signal (wing 1..n-1)", fp.loc(), fp.qn + "::mirror")
-    for n in (2, 3, 5):
-        for wing in range(1, n):
+    fp = prog.fn("cnvlib.smoothing.check_inputs")
+    tbp = Table(chk, "pad-unpad", "check_inputs on literal arrays: the padded signal is the signal with `wing` mirrored values before and after it (2..9 values x five widths)", fp.loc(), fp.qn + "::mirror")
+    for n in (2, 3, 5, 9):
+        for width in (2, 5, 8, Fr(1, 2), Fr(9, 10)):
             W.reset()
             it = Interp(prog, mk_model())
             x = [Fr(10 * i + 1) for i in range(n)]
-            out = tbp.guard(lambda: it.run(fp.qn, [Arr(list(x)), wing]), f"n={n} wing={wing}")
+            out = tbp.guard(lambda: it.run(fp.qn, [Arr(list(x)), width], dict(as_series=False)), f"n={n} width={width}")
             if out is None:
                 continue
-            want = x[:wing][::-1] + x + x[::-1][:wing]
-            got = lits(out) if isinstance(out, Arr) else None
-            tbp.cell(got == want, dict(n=n, wing=wing, got=[str(v) for v in got] if got else repr(out)[:60], want=[str(v) for v in want]))
-    tbp.done("_pad_array does not add exactly `wing` mirrored values on each side (the smoothers then return shifted or extra values)")
+            ok_shape = isinstance(out, tuple) and len(out) == 3 and T(out[1]).is_const()
+            wing = int(T(out[1]).cval()) if ok_shape else None
+            want = (x[:wing][::-1] + x + x[::-1][:wing]) if wing is not None and 1 <= wing <= n - 1 else None
+            got = lits(out[2]) if ok_shape and isinstance(out[2], Arr) else None
+            tbp.cell(want is not None and got == want, dict(n=n, width=str(width), wing=wing, got=[str(v) for v in got] if got else repr(out)[:60], want=[str(v) for v in want] if want else None))
+    tbp.done("the padded signal is not the signal with exactly `wing` mirrored values on each side (the smoothers then return shifted or extra values)")
     tb = Table(chk, "constant-signal", "rolling_median / rolling_quantile / unweighted kaiser on literal signals (2..9 values; widths as fraction, integer, wider than the signal): one value per input, "
                     "constant signal unchanged, median and Kaiser inside the input range", prog.fn("cnvlib.smoothing.rolling_median").loc(), "cnvlib.smoothing::smoothers on literal signals")
     signals = {"constant": lambda n: [Fr(3, 4)] * n, "step": lambda n: [Fr(0)] * (n // 2) + [Fr(5)] * (n - n // 2), "spike": lambda n: [Fr(1)] * (n - 1) + [Fr(40)], "zigzag": lambda n: [Fr((7 * i) % 5) for i in range(n)]}
